@@ -51,7 +51,9 @@ def run(m, rep, tier):
 
     # ---- V2 ------------------------------------------------------------------------
     v2 = rep.rule('V2', 'capacity change committed only when realloc succeeded; old block handed to realloc', floor=2)
-    mod = m.plain.get('vector')
+    # vector.c with its private helpers inlined into their callers: the allocation and the commit of its result may sit in
+    # one function (the capacity setter) or be split into "get the storage" and "commit it"
+    mod = m.focus('vector') if m.plain.get('vector') is not None else None
     if mod is None:
         v2.undecided('vector', 'unit vector.c not in the model')
     else:
@@ -69,7 +71,8 @@ def run(m, rep, tier):
                 else:
                     v2.ok(site, '%d use(s)/store(s) under result != NULL' % n, c.loc())
         # writers of cap / elem.base anywhere in the library
-        for f in m.all_plain_functions():
+        others = [f for f in m.all_plain_functions() if not (f.file or '').endswith('/vector.c') and mod.fn(f.name) is None]
+        for f in list(mod.defined()) + others:
             for s in f.all_insts():
                 if s.op != 'store':
                     continue
@@ -168,6 +171,66 @@ def run(m, rep, tier):
             v9.undecided(name, str(e), floc(m, f))
     if n9 == 0:
         v9.undecided('vector', 'no entry point that gives up the storage found')
+
+    # ---- V13: no capacity => no elements --------------------------------------------------------
+    # size <= capacity: a function that reports capacity 0 on a path also leaves the size 0 there -- it stores count := 0
+    # itself or has resized the vector to 0 (whose contract, V4/V10, is count == request on return)
+    v13 = rep.rule('V13', 'whenever a function sets the capacity to 0 the element count is 0 on that path as well (size <= capacity)', floor=1)
+    n13 = 0
+    for f in m.all_plain_functions():
+        if not (f.file or '').endswith(('vector.c', 'vector.h')):
+            continue
+        zero_caps = [s2 for s2 in f.all_insts() if s2.op == 'store' and vec_field(resolve_addr(f, s2.o[1])) == 'cap' and const_int(s2.o[0]) == 0]
+        if not zero_caps:
+            continue
+        n13 += 1
+
+        def key_of(a, drop):
+            r = strip_bitcasts(f, a.root) if isinstance(a.root, str) else a.root
+            return (r, tuple(a.steps[:len(a.steps) - drop]))
+
+        def transfer13(ins, st, ps, f=f):
+            capz, cntz = st
+            if ins.op == 'call':
+                if ins.x.get('noreturn'):
+                    return None
+                if ins.callee == 'cstl_vector_resize' and len(ins.o) >= 2 and const_int(ins.o[1]) == 0 and isinstance(ins.o[0], str):
+                    return (capz, key_of(resolve_addr(f, ins.o[0]), 0))
+                if ins.callee in ('cstl_vector_clear',) and isinstance(ins.o[0], str):
+                    k = key_of(resolve_addr(f, ins.o[0]), 0)
+                    return (k, k)
+            if ins.op == 'store':
+                a = resolve_addr(f, ins.o[1])
+                fl = vec_field(a)
+                if fl == 'cap':
+                    return (key_of(a, 1) if const_int(ins.o[0]) == 0 else None, cntz)
+                if fl == 'count':
+                    return (capz, key_of(a, 1) if const_int(ins.o[0]) == 0 else None)
+            return st
+        try:
+            res = typestate.run(f, (None, None), transfer13, limit=60000)
+            badr = []
+            for r, ps in res.exits:
+                capz, cntz = ps.auto
+                if capz is None or cntz == capz:
+                    continue
+                # ... or the path knows the count it last read is 0
+                known0 = False
+                for (op, x, y) in ps.known:
+                    xi = f.get(x) if isinstance(x, str) else None
+                    if op in ('eq', 'ule') and const_int(y) == 0 and xi is not None and xi.op == 'load' and vec_field(resolve_addr(f, xi.o[0])) == 'count':
+                        known0 = True
+                if not known0:
+                    badr.append(r)
+            if badr:
+                v13.violation(f.name, 'a path to the return at %s sets the capacity to 0 without the element count being 0 there (no count := 0, no resize '
+                              'to 0 on that path): the vector reports a size it has no storage for' % badr[0].loc(), floc(m, f), {})
+            else:
+                v13.ok(f.name, 'cap := 0 only together with count == 0 on all %d exit state(s)' % len(res.exits), floc(m, f))
+        except typestate.Limit as e:
+            v13.undecided(f.name, str(e), floc(m, f))
+    if n13 == 0:
+        v13.undecided('vector', 'no function that sets the capacity to 0 found')
 
     # ---- V10: resize moves the count toward the request only ---------------------------------
     v10 = rep.rule('V10', 'resize constructs (count + 1) only while count < request and destroys (count - 1) only while count > request', floor=1)
@@ -279,6 +342,11 @@ def run(m, rep, tier):
     for _n in ('cstl_vector_swap',):
         check_swap_complete(m, _n, _sw)
 
+    # ---- V14: the NDEBUG build does what the assertion build does ---------------------------------
+    from .util import check_assert_effects
+    _ae = rep.rule('V14', 'every store / effectful call made with assertions enabled is also made by the NDEBUG build (no work inside assert())', floor=1)
+    check_assert_effects(m, _ae, ('vector.c', 'vector.h'))
+
 
 def check_at(m, f, rule, lenfield, index_arg='$1'):
     pv = Prover(f)
@@ -368,7 +436,7 @@ def check_resize(m, f, rule):
 
 def check_scratch(m, rule):
     # (a) the capacity setter: stored cap value X, realloc size (X + 1) * elem.size
-    mod = m.plain.get('vector')
+    mod = m.focus('vector') if m.plain.get('vector') is not None else None
     found = 0
     if mod is not None:
         for f in mod.defined():
